@@ -41,7 +41,13 @@ enum ObserverOp {
     Sequence,
     /// four try_update calls in a row (state that drifts from one contended call to the next)
     TryUpdateFourTimes,
+    /// 300 snapshots / 300 try_update calls in a row on one thread (the N-th call of a thread:
+    /// periodic self-checks, counters, thresholds), only with one suspended writer and no pause
+    SnapshotMany,
+    TryUpdateMany,
 }
+const MANY: usize = 300;
+const LONG_OBSERVER_OPS: [ObserverOp; 2] = [ObserverOp::SnapshotMany, ObserverOp::TryUpdateMany];
 const OBSERVER_OPS: [ObserverOp; 7] = [ObserverOp::Snapshot, ObserverOp::SnapshotTwice, ObserverOp::TryUpdateNewer, ObserverOp::TryUpdateFarAhead, ObserverOp::TryUpdateOlder, ObserverOp::Sequence, ObserverOp::TryUpdateFourTimes];
 const FAR: u64 = 1_000_000;
 
@@ -89,7 +95,7 @@ impl Scenario {
         Some(Scenario {
             start_seq: get("start_seq")?.parse().ok()?,
             poisoned: get("poisoned")? == "true",
-            observer: OBSERVER_OPS.iter().copied().find(|o| format!("{:?}", o) == get("observer").unwrap_or(""))?,
+            observer: OBSERVER_OPS.iter().chain(LONG_OBSERVER_OPS.iter()).copied().find(|o| format!("{:?}", o) == get("observer").unwrap_or(""))?,
             observer_pause: get("observer_pause")?.parse().ok()?,
             completed_writer: get("completed_writer")? == "true",
             frozen,
@@ -210,6 +216,17 @@ fn run_controlled(sc: &Scenario, abt: &Arc<AtomicBaseTime>, ctl: &Arc<Controller
                         out.push((40 + i, true, abt.try_update(pair(40 + i))));
                     }
                 }
+                ObserverOp::SnapshotMany => {
+                    for _ in 0..MANY {
+                        let (t, v) = abt.snapshot();
+                        out.push((t, CHECK.check(t, v), true));
+                    }
+                }
+                ObserverOp::TryUpdateMany => {
+                    for i in 0..MANY as u64 {
+                        out.push((40 + i, true, abt.try_update(pair(40 + i))));
+                    }
+                }
             }
             *res.lock().unwrap() = out;
         }));
@@ -258,6 +275,9 @@ fn run_controlled(sc: &Scenario, abt: &Arc<AtomicBaseTime>, ctl: &Arc<Controller
         if stop == Stop::Timeout {
             return Err((format!("harness: frozen writer {} did not settle", i), handles));
         }
+        if op == WriterOp::TryUpdateNewer && matches!(stop, Stop::ParkedInLock | Stop::BlockedInKernel) {
+            return Err((format!("try_update (writer {}) WAITS ({}) although it must return false when it cannot have the lock at once", i, if stop == Stop::ParkedInLock { "inside a blocking lock() behind another holder of the writer lock" } else { "asleep in the kernel, blocked on something other than the instrumented writer lock" }), handles));
+        }
     }
     let holder = ctl.holder();
     outcome.frozen_holding_lock = matches!(holder, Some(r) if r >= ROLE_FROZEN0);
@@ -276,7 +296,8 @@ fn run_controlled(sc: &Scenario, abt: &Arc<AtomicBaseTime>, ctl: &Arc<Controller
     // ---- phase 4: the observer runs ALONE to completion
     let before = ctl.events(ROLE_OBSERVER).len();
     ctl.grant(ROLE_OBSERVER, UNLIMITED);
-    let stop = ctl.settle(ROLE_OBSERVER, STEP_CAP);
+    let step_cap = if LONG_OBSERVER_OPS.contains(&sc.observer) { MANY * 16 } else { STEP_CAP };
+    let stop = ctl.settle(ROLE_OBSERVER, step_cap);
     let events = ctl.events(ROLE_OBSERVER);
     outcome.observer_events = events.clone();
     let what = format!("{:?}", sc.observer);
@@ -286,7 +307,10 @@ fn run_controlled(sc: &Scenario, abt: &Arc<AtomicBaseTime>, ctl: &Arc<Controller
             return Err((format!("{} WAITS for the writer lock held by a suspended writer (its steps: {:?})", what, events), handles));
         }
         Stop::StepCap => {
-            return Err((format!("{} does not complete within {} of its own steps while writers are suspended (its steps so far: {:?})", what, STEP_CAP, &events[..events.len().min(24)]), handles));
+            return Err((format!("{} does not complete within {} of its own steps while writers are suspended (its steps so far: {:?})", what, step_cap, &events[..events.len().min(24)]), handles));
+        }
+        Stop::BlockedInKernel => {
+            return Err((format!("{} WAITS: it is asleep in the kernel (blocked on something other than the instrumented writer lock) while writers are suspended and nobody else runs (its steps so far: {:?})", what, &events[..events.len().min(24)]), handles));
         }
         other => return Err((format!("harness: observer stopped at {:?} in phase 4", other), handles)),
     }
@@ -299,10 +323,14 @@ fn run_controlled(sc: &Scenario, abt: &Arc<AtomicBaseTime>, ctl: &Arc<Controller
     outcome.observer_result = format!("{:?}", results);
     // which frozen writers will still land their update (they are released afterwards)
     match sc.observer {
-        ObserverOp::Snapshot | ObserverOp::SnapshotTwice => {
-            let n = if sc.observer == ObserverOp::Snapshot { 1 } else { 2 };
+        ObserverOp::Snapshot | ObserverOp::SnapshotTwice | ObserverOp::SnapshotMany => {
+            let n = match sc.observer {
+                ObserverOp::Snapshot => 1,
+                ObserverOp::SnapshotTwice => 2,
+                _ => MANY,
+            };
             if locks + trylocks > 0 {
-                return Err((format!("snapshot performed lock operations: {:?}", events), handles));
+                return Err((format!("snapshot performed lock operations: {:?}", &events[events.len().saturating_sub(12)..]), handles));
             }
             if results.len() != n {
                 return Err((format!("snapshot returned {} results", results.len()), handles));
@@ -343,9 +371,9 @@ fn run_controlled(sc: &Scenario, abt: &Arc<AtomicBaseTime>, ctl: &Arc<Controller
                 accepted_max = accepted_max.max(if sc.observer == ObserverOp::TryUpdateFarAhead { FAR } else { 40 });
             }
         }
-        ObserverOp::TryUpdateFourTimes => {
+        ObserverOp::TryUpdateFourTimes | ObserverOp::TryUpdateMany => {
             if locks > 0 && outcome.frozen_holding_lock {
-                return Err((format!("one of four consecutive try_update calls used a blocking lock() while a suspended writer holds the lock: {:?}", events), handles));
+                return Err((format!("one of several consecutive try_update calls used a blocking lock() while a suspended writer holds the lock: {:?}", &events[events.len().saturating_sub(12)..]), handles));
             }
             let acquired = events.iter().filter(|e| matches!(e, Op::TryLocked(true))).count();
             let accepted = results.iter().filter(|r| r.2).count();
@@ -388,6 +416,7 @@ fn scenarios(tier: Tier) -> Vec<Scenario> {
                     ObserverOp::TryUpdateNewer | ObserverOp::TryUpdateFarAhead | ObserverOp::TryUpdateOlder => 8,
                     ObserverOp::Sequence => 1,
                     ObserverOp::TryUpdateFourTimes => 2,
+                    _ => 0,
                 };
                 for observer_pause in 0..=max_pause {
                     for completed_writer in [false, true] {
@@ -410,6 +439,18 @@ fn scenarios(tier: Tier) -> Vec<Scenario> {
                                 v.push(Scenario { start_seq, poisoned, observer, observer_pause: 0, completed_writer: false, frozen: vec![(w1, k1), (w2, k2)] });
                             }
                         }
+                    }
+                }
+            }
+        }
+    }
+    // long observers: one suspended writer at every step, no pause, no completed writer
+    for start_seq in [1u8, 2] {
+        for poisoned in [false, true] {
+            for observer in LONG_OBSERVER_OPS {
+                for w in WRITER_OPS {
+                    for k in 0..=max_k {
+                        v.push(Scenario { start_seq, poisoned, observer, observer_pause: 0, completed_writer: false, frozen: vec![(w, k)] });
                     }
                 }
             }
@@ -453,6 +494,7 @@ fn nfs_scenario(k: usize, observer_is_observe: bool, second: bool, warm: bool, d
                 Stop::Done => {}
                 Stop::ParkedInLock => return Err("a second add_trusted_path WAITS for the base-time writer lock held by the suspended one".to_string()),
                 Stop::StepCap => return Err("a second add_trusted_path (wait-free try_update inside) does not complete within 1000 of its own steps while the first one is suspended".to_string()),
+                Stop::BlockedInKernel => return Err("a second add_trusted_path (wait-free try_update inside) WAITS: it is asleep in the kernel, blocked on something other than the instrumented writer lock, while the first one is suspended".to_string()),
                 other => return Err(format!("harness: the second add_trusted_path stopped at {:?}", other)),
             }
         }
@@ -482,6 +524,7 @@ fn nfs_scenario(k: usize, observer_is_observe: bool, second: bool, warm: bool, d
             Stop::Done => {}
             Stop::ParkedInLock => return Err(format!("{} WAITS for the base-time writer lock held by a suspended add_trusted_path (its steps: {:?})", name, events)),
             Stop::StepCap => return Err(format!("{} does not complete within {} steps while a writer is suspended", name, STEP_CAP)),
+            Stop::BlockedInKernel => return Err(format!("{} WAITS: it is asleep in the kernel, blocked on something other than the instrumented writer lock, while a writer is suspended (its steps: {:?})", name, events)),
             other => return Err(format!("harness: {} stopped at {:?}", name, other)),
         }
         let locks = events.iter().filter(|e| matches!(e, Op::Lock)).count();
@@ -720,10 +763,16 @@ fn run(ctx: &Ctx) -> Report {
                     machinery_failure(&format!("{} in scenario {}", e, sc.render()));
                 }
                 let again = run_checked(sc);
-                if again.is_ok() {
-                    machinery_failure(&format!("C18 violation did not reproduce: {} / {}", sc.render(), e));
-                }
                 let r = sc.render();
+                if again.is_ok() {
+                    // process-global state in the code under test (a static memo, a once-cell) can make a
+                    // second run in this process take another path: the verdict is then that of the
+                    // scenario run on its own in a fresh process
+                    if !reproduces_in_fresh_process(&ctx.prop, &format!("scenario: {}\nobserved: {}\n", r, e)) {
+                        machinery_failure(&format!("C18 violation did not reproduce: {} / {}", sc.render(), e));
+                    }
+                    rep.count("violations_confirmed_in_a_fresh_process", 1);
+                }
                 rep.violation(Violation { key: format!("C18:{}", r.replace(' ', ";")), summary: format!("AtomicBaseTime [{}]: {}", r, e), replay_text: format!("scenario: {}\nobserved: {}\n", r, e) });
             }
         }
